@@ -172,6 +172,12 @@ def verify_machine(res, name, path, wd, base, cfile, ctext, index, root):
                      cbmc_flags=['--drop-unused-functions', '--unwind', str(max(K, 260)), '--unwinding-assertions'],
                      timeout=1200, mem_gb=12, meta={'doc': name})
     rt = cbmcrun.verify(jt)
+    if rt['status'] == 'error' and rt['reason'].startswith('goto-cc failed') and os.path.basename(cfile) in rt['reason']:
+        # the emitted file itself is not valid C (e.g. it references a function the transpiler did not emit):
+        # the document is outside the fragment the C transpiler supports
+        m = re.search(r'error: [^\n]*', rt['reason'])
+        res.update(status='skip', skip='emitted C does not compile (%s): document outside the fragment the C transpiler supports' % (m.group(0)[:160] if m else 'goto-cc error'))
+        return res
     res['tables'] = slim(rt)
     # ---- step (C04 Level D + C02)
     lines = ctext.split('\n')
